@@ -343,6 +343,14 @@ func FromChannel[T any](in <-chan T) Observable[T] {
 
 		go recoverUnhandledError(func() {
 			for {
+				// select picks at random among its ready cases: once unsubscribed, do not
+				// take another value out of the channel
+				select {
+				case <-done:
+					return
+				default:
+				}
+
 				select {
 				case item, ok := <-in:
 					if !ok {
